@@ -134,14 +134,27 @@ def _cseg_layout(repo, col):
             cset == SPEC_BITS, "" if cset == SPEC_BITS else
             "encoder may choose bit widths %s, the format allows %s"
             % (cset, SPEC_BITS), undecided=cset is None)
-    okc = any(isinstance(n, ast.Compare) and norm(n) in (
-        "2 ** bits >= elements", "elements <= 2 ** bits",
-        "1 << bits >= elements", "elements <= 1 << bits")
-        for n in walk_local(chooser.node))
+    # names are taken from the code: loop variable of the width loop and the
+    # function's (only) parameter
+    lv = None
+    for n in walk_local(chooser.node):
+        if isinstance(n, ast.For) and isinstance(n.iter, (ast.Tuple, ast.List)) \
+                and isinstance(n.target, ast.Name):
+            lv = n.target.id
+    pv = [p_ for p_ in chooser.params if p_ != "self"]
+    pv = pv[0] if pv else None
+    forms = set()
+    if lv and pv:
+        forms = {"2 ** %s >= %s" % (lv, pv), "%s <= 2 ** %s" % (pv, lv),
+                 "1 << %s >= %s" % (lv, pv), "%s <= 1 << %s" % (pv, lv)}
+    okc = any(isinstance(n, ast.Compare) and norm(n) in forms
+              for n in walk_local(chooser.node))
     col.add(rule + ".bits", chooser, "2 ** bits >= elements", okc,
             "" if okc else "width chooser does not take the smallest width "
             "with 2**bits >= number of labels", undecided=not okc and
-            "elements" not in ftext(chooser))
+            (not forms or not any(isinstance(n, ast.Compare) and
+                                  pv in names_in(n)
+                                  for n in walk_local(chooser.node))))
     dset = None
     for n in walk_local(dec.node):
         if isinstance(n, ast.Compare) and isinstance(n.ops[0], (ast.NotIn,
@@ -159,35 +172,58 @@ def _cseg_layout(repo, col):
     for qn in ("_pack_encoded_values", "_unpack_encoded_values"):
         fn = repo.func(mod, qn)
         txt = ftext(fn)
-        okv = "values_per_32bit = 32 // bits" in txt
+        fdefs = local_defs(fn.node)
+        bp = [p_ for p_ in fn.params if p_ != "self"]
+        bp = bp[1] if len(bp) > 1 else None      # (values, bits, ...)
+        # V: the local holding 32 // bits
+        vnames = {nm for nm, ds in fdefs.items() for d in ds
+                  if d.value is not None and bp and
+                  norm(d.value) == "32 // %s" % bp}
+        per_word = {"32 // %s" % bp} | vnames if bp else set()
+        okv = bool(vnames) or (bp is not None and "32 // %s" % bp in txt)
         col.add(rule + ".packing", fn, "values_per_32bit = 32 // bits", okv,
                 "" if okv else "values per 32-bit word is not 32 // bits",
                 undecided=not okv and "32" not in txt)
+        # S: the variable running over range(V)
+        snames = set()
+        for nm, ds in fdefs.items():
+            for d in ds:
+                if d.kind in ("for", "comp") and isinstance(d.value, ast.Call) \
+                        and call_name(d.value) == "range" and \
+                        len(d.value.args) == 1 and \
+                        norm(d.value.args[0]) in per_word:
+                    snames.add(nm)
         strides = [n for n in walk_local(fn.node) if isinstance(n, ast.Subscript)
                    and isinstance(n.slice, ast.Slice) and n.slice.step is not None]
         oks = bool(strides) and all(
-            norm(s.slice.lower) == "shift" and
-            norm(s.slice.step) == "values_per_32bit" and s.slice.upper is None
-            for s in strides)
+            s_.slice.lower is not None and norm(s_.slice.lower) in snames and
+            norm(s_.slice.step) in per_word and s_.slice.upper is None
+            for s_ in strides)
         col.add(rule + ".packing", fn, "[shift::values_per_32bit]", oks,
                 "" if oks else "value k of each word is not taken from "
                 "position k, k+n, k+2n, ... of the value stream",
-                undecided=not strides)
+                undecided=not strides or (not oks and not snames))
         shs = [n for n in walk_local(fn.node) if isinstance(n, ast.BinOp)
                and isinstance(n.op, (ast.LShift, ast.RShift))
-               and "shift" in names_in(n.right)]
-        okb = bool(shs) and all(_canon(n.right) == "bits*shift" for n in shs)
+               and names_in(n.right) & snames]
+        okb = bool(shs) and all(
+            _canon(n.right) in ("%s*%s" % tuple(sorted((bp, s_)))
+                                for s_ in snames) for n in shs)
         col.add(rule + ".packing", fn, "shift * bits", okb,
                 "" if okb else "bit position of value k is not k*bits "
                 "(least-significant first)", undecided=not shs)
     fn = repo.func(mod, "_unpack_encoded_values")
-    okm = any(_canon(d.value) == "-1 + SHL(1, bits)" or
-              norm(d.value) == "(1 << bits) - 1"
-              for d in local_defs(fn.node).get("bitmask", [])
-              if d.value is not None)
+    bp = [p_ for p_ in fn.params if p_ != "self"]
+    bp = bp[1] if len(bp) > 1 else "bits"
+    masks_ = [n for n in walk_local(fn.node) if isinstance(n, ast.BinOp)
+              and isinstance(n.op, ast.Sub) and const_int(n.right) == 1
+              and isinstance(n.left, ast.BinOp)
+              and isinstance(n.left.op, (ast.LShift, ast.Pow))]
+    okm = any(norm(n) in ("(1 << %s) - 1" % bp, "2 ** %s - 1" % bp)
+              for n in masks_)
     col.add(rule + ".packing", fn, "bitmask = (1 << bits) - 1", okm,
             "" if okm else "value mask is not (1 << bits) - 1",
-            undecided="bitmask" not in local_defs(fn.node))
+            undecided=not masks_)
     # 6. grid = ceil(extent / block) per axis, encoder and both decoder sites
     for qn in ("_encode_channel", "decode_chunk_into", "_decode_channel_into"):
         fn = repo.func(mod, qn)
@@ -333,19 +369,36 @@ def sharded_layout(repo, col, parts=("index", "name")):
     app = repo.func("sharded_file_accessor", "MiniShard.append", inline=True)
     appends = [c for c in calls_in(app.node)
                if (call_name(c) or "").endswith("np.append")]
-    vals = [norm(c.args[1]) for c in appends if len(c.args) == 2]
+    from .dataflow import single_defs as _sd, expand as _ex
+    atab = _sd(app.node)
+    aparams = [p_ for p_ in app.params if p_ != "self"]
+    bufp = aparams[0] if aparams else "buf"
+    cmcp = aparams[1] if len(aparams) > 1 else "cmc"
+    exprs = [_strip_uint(_ex(c.args[1], atab)) for c in appends
+             if len(c.args) == 2]
+    vals = [norm(e) for e in exprs]
     defs = local_defs(app.node)
-    ok_order = len(vals) == 3 and "new_chunk_id" in vals[0] and \
-        "offset" in vals[1] and "len(buf)" in vals[2]
-    col.add(rule + ".minishard-rows", app, "append order %s" % vals, ok_order,
+    # attribute that remembers the previously appended id
+    last_attrs = {norm(st.targets[0]) for st in stmts_of(app.node)
+                  if isinstance(st, ast.Assign) and len(st.targets) == 1
+                  and isinstance(st.targets[0], ast.Attribute)
+                  and norm(st.value) == cmcp}
+
+    def is_delta(e):
+        return isinstance(e, ast.BinOp) and isinstance(e.op, ast.Sub) and \
+            norm(e.left) == cmcp and norm(e.right) in last_attrs
+    ok_order = len(vals) == 3 and is_delta(exprs[0]) and \
+        "offset" in vals[1] and vals[2] == "len(%s)" % bufp
+    und_order = len(vals) != 3 or (not ok_order and not any(
+        is_delta(e) for e in exprs) and not last_attrs)
+    col.add(rule + ".minishard-rows", app, "append order %s" % vals,
+            ok_order or und_order,
             "" if ok_order else "per-chunk triple is not (id delta, offset "
-            "delta, size) in this order", undecided=len(vals) != 3)
-    okd = any(norm(d.value) == "cmc - self._last_chunk_id"
-              for d in defs.get("new_chunk_id", []) if d.value is not None) \
-        and "self._last_chunk_id = cmc" in ftext(app)
+            "delta, size) in this order", undecided=und_order and not ok_order)
+    okd = any(is_delta(e) for e in exprs) and bool(last_attrs)
     col.add(rule + ".minishard-rows", app, "id delta = cmc - previous id", okd,
             "" if okd else "chunk ids are not delta-encoded against the "
-            "previously appended id")
+            "previously appended id", undecided=not okd and len(vals) != 3)
     resh = [c for c in calls_in(close.node)
             if (call_name(c) or "").endswith("reshape")]
     okr = False
@@ -438,8 +491,9 @@ def _lowmask_width(node, fn_defs):
         if isinstance(x, ast.BinOp) and isinstance(x.op, ast.LShift) and \
                 isinstance(x.left, ast.BinOp) and \
                 isinstance(x.left.op, ast.RShift) and \
-                norm(x.right) == norm(x.left.right) and \
-                "MAX" in norm(x.left.left).upper():
+                norm(x.right) == norm(x.left.right) and (
+                    "MAX" in norm(x.left.left).upper() or
+                    const_int(_strip_uint(x.left.left)) == 2 ** 64 - 1):
             return x.right
     if isinstance(node, ast.BinOp) and isinstance(node.op, ast.Sub) and \
             const_int(node.right) == 1 and isinstance(node.left, ast.BinOp) \
@@ -601,34 +655,57 @@ def morton_loop(repo, col):
             "inner loop does not visit the dimensions in x, y, z order",
             undecided=not ok_inner and "3" not in norm(inner.iter))
     conds = [s for s in inner.body if isinstance(s, ast.If)]
-    okc = False
+    okc, undc = False, False
     form = "-"
     if conds:
-        from .dataflow import single_defs, expand
-        t = norm(expand(conds[0].test, single_defs(fn.node)))
-        form = t
-        if t in ("2 ** %s < self.grid_sizes[%s]" % (i, dim),
-                 "1 << %s < self.grid_sizes[%s]" % (i, dim),
-                 "self.grid_sizes[%s] > 2 ** %s" % (dim, i)):
-            okc = True
-        elif t in ("%s < self.num_bits[%s]" % (i, dim),
-                   "self.num_bits[%s] > %s" % (dim, i)):
-            # equivalent iff num_bits = ceil(log2(grid_size))
-            ini = repo.func("sharded_base", "ShardVolumeSpec.__init__")
-            okc = "self.num_bits = [math.ceil(math.log2(grid_size)) for " \
-                "grid_size in self.grid_sizes]" in ftext(ini)
-            form = t + " with num_bits = " + (
-                "ceil(log2(grid))" if okc else "something else")
-    col.add(rule, fn, "skip exhausted axes: %s" % form, okc,
+        from .dataflow import single_defs, expand, holds as _holds
+        test = expand(conds[0].test, single_defs(fn.node))
+        form = norm(test)
+        # condition under which the axis contributes a bit: the test itself
+        # when the contribution is in the body, its negation when the body
+        # only skips (`continue`)
+        skips = all(isinstance(x, (ast.Continue, ast.Pass)) or (
+            isinstance(x, ast.Expr) and isinstance(x.value, ast.Constant))
+            for x in conds[0].body) and not conds[0].orelse
+        atoms = _holds(test, not skips)
+        verdict = None
+        for a_ in atoms:
+            for b_ in (a_, a_.flipped()):
+                l, r = norm(b_.left), norm(b_.right)
+                if l in ("2 ** %s" % i, "1 << %s" % i) and \
+                        r == "self.grid_sizes[%s]" % dim:
+                    verdict = b_.op == "<"
+                elif l == i and r == "self.num_bits[%s]" % dim:
+                    # equivalent iff num_bits = ceil(log2(grid_size))
+                    ini = repo.func("sharded_base", "ShardVolumeSpec.__init__")
+                    verdict = b_.op == "<" and \
+                        "math.ceil(math.log2(grid_size))" in ftext(ini)
+        if verdict is None:
+            undc = True
+        else:
+            okc = verdict
+    col.add(rule, fn, "skip exhausted axes: %s" % form, okc or undc,
             "an axis contributes bit i only while 2**i < its grid size"
             if okc else "axis-exhaustion test `%s` is not `2**i < grid_size` "
             "(strict): axes keep (or stop) contributing bits at the wrong "
             "level, so identifiers differ from the specification" % form,
-            undecided=not conds)
+            undecided=(not conds or undc) and not okc)
     if conds:
-        body = norm(conds[0])
-        okb = ">> np.uint64(%s) & one" % i in body and "<< j" in body and \
-            "j += one" in body and "grid_coords[%s]" % dim in body
+        coordp = [p_ for p_ in fn.params if p_ != "self"]
+        coordp = coordp[0] if coordp else "grid_coords"
+        nodes = list(ast.walk(inner))
+        extract = any(isinstance(n, ast.BinOp) and isinstance(n.op, ast.RShift)
+                      and "%s[%s]" % (coordp, dim) in norm(n.left)
+                      and i in names_in(n.right) for n in nodes)
+        places = [n.right.id for n in nodes if isinstance(n, ast.BinOp)
+                  and isinstance(n.op, ast.LShift)
+                  and isinstance(n.right, ast.Name)]
+        advanced = any(isinstance(n, ast.AugAssign) and
+                       isinstance(n.op, ast.Add) and
+                       norm(n.target) in places for n in nodes)
+        masked = any(isinstance(n, ast.BinOp) and isinstance(n.op, ast.BitAnd)
+                     for n in nodes)
+        okb = extract and bool(places) and advanced and masked
         col.add(rule, fn, "bit (coord >> i) & 1 placed at running position j",
                 okb, "" if okb else "bit extraction / placement not in the "
                 "recognised form", undecided=not okb)
